@@ -22,11 +22,26 @@ Judge(e, i) ==
     ELSE IF I!Legal(e.role, e.asn_chars, e.rust_chars, e.rust, e.has_annot, e.annot, e.asn) THEN TRUE
     ELSE Report(i, "MISMATCH", Why(e))
 
+\* derived identifiers (inner type items, default functions, payload types of From impls): every identifier of the output is a
+\* legal non-keyword Rust identifier, and the item of the anonymous inner type carries the name it is derived from
+RECURSIVE Contains(_, _)
+Contains(s, t) == IF Len(t) > Len(s) THEN FALSE
+                  ELSE IF SubSeq(s, 1, Len(t)) = t THEN TRUE ELSE Contains(Tail(s), t)
+JudgeDerived(e, i) ==
+    IF e.status \in {"err", "warn"} THEN Report(i, "SKIP", e.status)
+    ELSE IF e.status # "ok" THEN Report(i, "MISMATCH", "the name used as parent / member of an anonymous inner type, with From impls: " \o e.status \o " " \o e.detail)
+    ELSE IF ~e.parsed_ok THEN Report(i, "MISMATCH", "generated text does not parse as Rust (illegal derived identifier)")
+    ELSE IF \E k \in 1..Len(e.idents) : ~I!RustIdent(e.idents[k].c, e.idents[k].s)
+         THEN Report(i, "MISMATCH", "a derived identifier is not a legal non-keyword Rust identifier")
+    ELSE IF Len(e.inner) = 0 THEN Report(i, "MISMATCH", "no item for the anonymous inner type")
+    ELSE IF \E k \in 1..Len(e.inner) : ~Contains(I!Norm(e.inner[k]), I!Norm(e.asn_chars))
+         THEN Report(i, "MISMATCH", "the item of the anonymous inner type does not carry the ASN.1 name it is derived from")
+    ELSE TRUE
+
 Init == l = 1 /\ I!Init
 
 Step == /\ l <= Len(Rec)
-        /\ Rec[l].ev = "ident"
-        /\ Judge(Rec[l], l)
+        /\ IF Rec[l].ev = "derived" THEN JudgeDerived(Rec[l], l) ELSE Judge(Rec[l], l)
         /\ l' = l + 1
         /\ UNCHANGED <<name, kw, spell, role, phase>>
 
